@@ -20,6 +20,7 @@ thread_local! {
     static ATTACH_LAGGING: Cell<u64> = const { Cell::new(0) };
     static DROP_SLOWEST: Cell<u64> = const { Cell::new(0) };
     static DROP_ALL: Cell<u64> = const { Cell::new(0) };
+    static DROP_UNWINDING: Cell<u64> = const { Cell::new(0) };
     static BUS_DROPPED: Cell<u64> = const { Cell::new(0) };
     static EXHAUSTED: Cell<u64> = const { Cell::new(0) };
 }
@@ -66,19 +67,39 @@ struct Out {
     pos: u64,
 }
 
+thread_local! {
+    /// when set, every Drop(i) of the sequence happens while the thread is unwinding from a panic
+    /// (the output is owned by a closure that panics, caught right away): destructors run then
+    /// too, and an output dropped that way must be deregistered like any other
+    static UNWIND_DROPS: Cell<bool> = const { Cell::new(false) };
+}
+fn case_suffix() -> &'static str {
+    if UNWIND_DROPS.with(|c| c.get()) {
+        ";unwind=1"
+    } else {
+        ""
+    }
+}
+fn run_seq_unwinding(rep: &mut Report, ops: &[Op], src_len: Option<u64>) -> bool {
+    UNWIND_DROPS.with(|c| c.set(true));
+    let r = run_seq(rep, ops, src_len);
+    UNWIND_DROPS.with(|c| c.set(false));
+    r
+}
+
 /// run one operation sequence; `src_len` = None for an infinite source
 fn run_seq(rep: &mut Report, ops: &[Op], src_len: Option<u64>) -> bool {
     match vmon::catch(std::panic::AssertUnwindSafe(|| run_seq_inner(rep, ops, src_len))) {
         Ok(ok) => ok,
         Err(m) => {
-            rep.violation("bus|panic", format!("ops {} source_len {:?}: panicked: {}", enc(ops), src_len, m), format!("len={};ops={}", src_len.map(|l| l as i64).unwrap_or(-1), enc(ops)));
+            rep.violation("bus|panic", format!("ops {} source_len {:?}: panicked: {}", enc(ops), src_len, m), format!("len={};ops={}{}", src_len.map(|l| l as i64).unwrap_or(-1), enc(ops), case_suffix()));
             false
         }
     }
 }
 
 fn run_seq_inner(rep: &mut Report, ops: &[Op], src_len: Option<u64>) -> bool {
-    let case = || format!("len={};ops={}", src_len.map(|l| l as i64).unwrap_or(-1), enc(ops));
+    let case = || format!("len={};ops={}{}", src_len.map(|l| l as i64).unwrap_or(-1), enc(ops), case_suffix());
     let probe = Probe::new();
     let src = match src_len {
         Some(l) => USource::generated(gen_frame, l, probe.clone()),
@@ -127,7 +148,15 @@ fn run_seq_inner(rep: &mut Report, ops: &[Op], src_len: Option<u64>) -> bool {
                 let Some(slot) = outs.get_mut(i) else { continue };
                 if let Some(o) = slot.take() {
                     let was_slowest = outs.iter().flatten().all(|x| x.pos > o.pos) && outs.iter().flatten().count() > 0;
-                    drop(o);
+                    if UNWIND_DROPS.with(|c| c.get()) {
+                        let _ = vmon::catch(std::panic::AssertUnwindSafe(move || {
+                            let _held = o;
+                            panic!("unwinding while a bus output is alive");
+                        }));
+                        bump(&DROP_UNWINDING);
+                    } else {
+                        drop(o);
+                    }
                     if was_slowest {
                         bump(&DROP_SLOWEST);
                     }
@@ -322,6 +351,7 @@ fn flush(rep: &mut Report) {
     rep.hit_n("attach_while_others_lag", ATTACH_LAGGING.with(|c| c.replace(0)));
     rep.hit_n("drop_slowest_output", DROP_SLOWEST.with(|c| c.replace(0)));
     rep.hit_n("drop_all_outputs", DROP_ALL.with(|c| c.replace(0)));
+    rep.hit_n("output_dropped_while_unwinding", DROP_UNWINDING.with(|c| c.replace(0)));
     rep.hit_n("bus_handle_dropped_while_outputs_live", BUS_DROPPED.with(|c| c.replace(0)));
     rep.hit_n("exhaustion_observed", EXHAUSTED.with(|c| c.replace(0)));
 }
@@ -359,6 +389,9 @@ fn main() {
         if i % 4 == 0 {
             run_seq(rep, s, Some(0));
             run_seq(rep, s, Some(1));
+        }
+        if s.iter().any(|o| matches!(o, Op::Drop(_))) {
+            run_seq_unwinding(rep, s, if i % 3 == 0 { Some(2) } else { None });
         }
         if s.iter().any(|o| matches!(o, Op::Drop(_))) || s.iter().skip(1).any(|o| *o == Op::Send) {
             rep.nontrivial(vmon::hash_str(&enc(s)));
